@@ -64,15 +64,9 @@ package cmd
 //@   ensures errSeen(parsePackageNamespaces) ==> result1 != nil
 //@   ensures the_root_is_flattened_from_an_empty_list: !errSeen(parsePackageNamespaces) ==> calls(flattenNamespaces) == 1 && lastArg(flattenNamespaces, 0) == lastResult(parsePackageNamespaces).r0 && len(result0) == len(lastResult(flattenNamespaces)) && (forall j in 0..len(result0) :: result0[j] == lastResult(flattenNamespaces)[j])
 
-//@ observe-args cmd.parsePackageNamespaces
 //@ func parsePackageNamespaces
 //@   property C09,C11,C18
 //@   invariant 0: !errSeen(parsePackageNamespaces)
-// every import of a package becomes a reference of its namespace, in the order of the import list - also when the
-// imported package was parsed before (the generators print the imports of a module from these references)
-//@   iteration 0: every_import_is_resolved: calls(parsePackageNamespaces) == old(calls(parsePackageNamespaces)) + 1 && lastArg(parsePackageNamespaces, 1) == alreadyParsed
-//@   iteration 0: every_import_becomes_a_reference: len(namespace.References) >= 1 && namespace.References[len(namespace.References) - 1] == lastResult(parsePackageNamespaces).r0
-//@   ensures a_namespace_is_parsed_once: old(p.Namespace in alreadyParsed) ==> result0 == old(alreadyParsed[p.Namespace]) && result1 == nil && !called(dsl.ParsePackageContents)
 //@   ensures parse_error_propagates: errSeen(dsl.ParsePackageContents) ==> result1 != nil
 //@   ensures import_error_propagates: errSeen(parsePackageNamespaces) ==> result1 != nil
 
